@@ -36,6 +36,6 @@ def jobs(tier):
 MANIFEST = {
     "text": "Bounded model checking of the whole core on the OS model with CBMC's pointer, free and memory-leak "
             "instrumentation: a catalogue of re-entrant / retained-reference scenario families, each ending with the "
-            "context released and every user reference dropped",
+            "context released and every user reference dropped; a stop callback re-entering the teardown (nested module deregistration releasing the context)",
     "note": "catalogue, not all programs; call order per job; parallel tasks outside the claim (deferred-call model)",
 }
